@@ -9,7 +9,9 @@ import (
 
 	"github.com/anishathalye/porcupine"
 	"github.com/gopcua/opcua"
+	"github.com/gopcua/opcua/id"
 	"github.com/gopcua/opcua/server"
+	"github.com/gopcua/opcua/server/attrs"
 	"github.com/gopcua/opcua/ua"
 
 	"verifharness/fw"
@@ -111,10 +113,28 @@ func c34RunOne(c *fw.Ctx, run int64) {
 	}
 	defer rs.Srv.Close()
 	var ids []*ua.NodeID
+	u32 := map[string]bool{} // nodes whose values are UInt32 above 2^31 (the register keeps the type it was written with)
 	if kind == "node" {
 		for i := 0; i < nnodes; i++ {
+			if (int(run)+i)%3 == 1 {
+				n := rwVar(rs.NS, fmt.Sprintf("lin%d", i), uint32(0))
+				ids = append(ids, n.ID())
+				u32[n.ID().String()] = true
+				continue
+			}
 			ids = append(ids, rwVar(rs.NS, fmt.Sprintf("lin%d", i), int64(0)).ID())
 		}
+		// a node the clients may read but not write: their writes are refused and must stay without effect
+		ro := server.NewNode(ua.NewStringNodeID(rs.NS.ID(), "lin-readonly"), map[ua.AttributeID]*ua.DataValue{
+			ua.AttributeIDAccessLevel:     server.DataValueFromValue(byte(ua.AccessLevelTypeCurrentRead)),
+			ua.AttributeIDUserAccessLevel: server.DataValueFromValue(byte(ua.AccessLevelTypeCurrentRead)),
+			ua.AttributeIDBrowseName:      server.DataValueFromValue(attrs.BrowseName("lin-readonly")),
+			ua.AttributeIDNodeClass:       server.DataValueFromValue(uint32(ua.NodeClassVariable)),
+		}, nil, func() *ua.DataValue { return server.DataValueFromValue(int64(0)) })
+		rs.NS.AddNode(ro)
+		rs.NS.Objects().AddRef(ro, id.HasComponent, true)
+		ids = append(ids, ro.ID())
+		nnodes++
 	} else {
 		mns := server.NewMapNamespace(rs.Srv, "verifmap")
 		for i := 0; i < nnodes; i++ {
@@ -186,6 +206,11 @@ func c34RunOne(c *fw.Ctx, run int64) {
 					if write {
 						rec.In.Val = run*10_000_000 + int64(ci)*100_000 + int64(k)*10 + int64(e) + 1 // unique per history
 						dv := &ua.DataValue{EncodingMask: ua.DataValueValue, Value: ua.MustVariant(rec.In.Val)}
+						if u32[rec.In.Node] {
+							v32 := uint32(0x80000000 | (rec.In.Val & 0x7fffffff))
+							rec.In.Val = int64(v32)
+							dv.Value = ua.MustVariant(v32)
+						}
 						// clients stamp their writes with their own, unsynchronised clocks
 						if rr.Intn(2) == 0 {
 							dv.EncodingMask |= ua.DataValueSourceTimestamp
@@ -224,11 +249,24 @@ func c34RunOne(c *fw.Ctx, run int64) {
 							if ri < 0 || res.Results[ei].Value == nil {
 								continue
 							}
-							v, ok := res.Results[ei].Value.Value().(int64)
-							if !ok {
-								continue
-							}
 							rec := recsOf[ri]
+							var v int64
+							switch x := res.Results[ei].Value.Value().(type) {
+							case int64:
+								v = x
+								if u32[rec.In.Node] {
+									v = -2 // a value of another type than any write to this node had
+								}
+							case uint32:
+								v = int64(x)
+								if !u32[rec.In.Node] {
+									v = -2
+								}
+							case nil:
+								continue
+							default:
+								v = -2
+							}
 							rec.Call, rec.Ret, rec.Out = call, ret, v
 							keep = append(keep, rec)
 						}
